@@ -355,15 +355,29 @@ Proof. reflexivity. Qed.
 Lemma chain_next_lt last r : last < 256 -> Forall wf_wpayload r -> chain_next last r < 256.
 Proof. intros Hl Hw. destruct r as [|q r]; [exact Hl|]. inversion Hw as [|? ? (_ & Hb & _) _]; subst. now apply wtype_lt. Qed.
 
+(* RFC 7296 3.14: an Encrypted payload is the last payload of the chain *)
+Definition is_wsk (p : wpayload) : bool := match wpl_body p with WSK _ => true | _ => false end.
+Fixpoint sk_is_last (l : list wpayload) : Prop :=
+  match l with
+  | [] => True
+  | p :: r => (is_wsk p = true -> r = []) /\ sk_is_last r
+  end.
+
+Lemma wtype_46 b : wf_wbody b -> wtype b = 46 -> exists d, b = WSK d.
+Proof.
+  destruct b; cbn; try discriminate; try (destruct initiator; discriminate); intros Hw H; [eexists; reflexivity|].
+  destruct Hw as [Hs _]. subst ty. discriminate.
+Qed.
+
 Lemma chain_rt l : forall fuel last first ps,
-  last < 256 -> Forall wf_wpayload l -> erase_chain eap_of last l = Some ps ->
+  last < 256 -> Forall wf_wpayload l -> sk_is_last l -> erase_chain eap_of last l = Some ps ->
   (length (wenc_chain last l) < fuel)%nat -> first = chain_next last l ->
   container_decode fuel first (wenc_chain last l) = Ok ps.
 Proof.
-  induction l as [|p r IH]; intros fuel last first ps Hlast Hw He Hf Hfirst.
+  induction l as [|p r IH]; intros fuel last first ps Hlast Hw Hskl He Hf Hfirst.
   - destruct fuel; [cbn in Hf; lia|]. cbn in He. injection He as <-. reflexivity.
   - inversion Hw as [|? ? Hp Hw']; subst. destruct fuel as [|f]; [lia|].
-    destruct Hp as (Hres & Hb & Hl & Hcrit).
+    destruct Hp as (Hres & Hb & Hl & Hcrit). destruct Hskl as [Hsk1 Hskr].
     pose proof (chain_next_lt last r Hlast Hw') as Hn.
     rewrite wenc_chain_cons in *. set (next := chain_next last r) in *.
     set (tl := wenc_chain last r) in *.
@@ -386,6 +400,11 @@ Proof.
           - destruct Hb as [Hb _]. rewrite Hb in Sup. discriminate. }
       destruct (erase_chain eap_of last r) as [xs|] eqn:Er; try discriminate. injection He as <-.
       unfold body. rewrite (payload_rt _ next x Hb Sup Eb). cbn [bind].
+      assert (Hnosk : (wtype (wpl_body p) =? 46) && (4 + length (wenc_body (wpl_body p)) <? 4 + (length (wenc_body (wpl_body p)) + length tl))%nat = false).
+      { destruct (wtype (wpl_body p) =? 46) eqn:E46; [|reflexivity]. apply N.eqb_eq in E46.
+        destruct (wtype_46 _ Hb E46) as [d Ed]. assert (r = []) by (apply Hsk1; unfold is_wsk; now rewrite Ed). subst r.
+        unfold tl. cbn [wenc_chain length andb]. apply Nat.ltb_ge. lia. }
+      cbn [Nat.add] in Hnosk. rewrite Hnosk.
       decide_cmp. rewrite from_app by reflexivity. cbn [bind]. unfold tl.
       rewrite (IH f last next xs); try assumption; try reflexivity. fold tl. lia.
     + rewrite (Hcrit eq_refl) in *. rewrite b2n_n2b_small by lia. rewrite Hfl. change (0 =? 0) with true. cbv iota.
@@ -402,7 +421,7 @@ Definition wf_wheader (h : wheader) : Prop :=
   wh_exch h < 256 /\ wh_flags h < 256 /\ wh_mid h < 4294967296.
 
 Definition wf_wmsg (m : wmsg) : Prop :=
-  wf_wheader (wm_hdr m) /\ Forall wf_wpayload (wm_payloads m) /\ wm_sk_next m < 256 /\
+  wf_wheader (wm_hdr m) /\ Forall wf_wpayload (wm_payloads m) /\ sk_is_last (wm_payloads m) /\ wm_sk_next m < 256 /\
   28 + len (wenc_chain (wm_sk_next m) (wm_payloads m)) < 4294967296.
 
 Definition erase_hdr (h : wheader) (first : N) : header :=
@@ -421,7 +440,7 @@ Theorem decode_wenc m ps :
   wf_wmsg m -> erase_chain eap_of (wm_sk_next m) (wm_payloads m) = Some ps ->
   decode (wenc m) = Ok (mkMsg (erase_hdr (wm_hdr m) (wfirst (wm_payloads m))) ps).
 Proof.
-  intros (Hh & Hp & Hsk & Htot) He. destruct Hh as (H1 & H2 & H3 & H4 & H5 & H6 & H7).
+  intros (Hh & Hp & Hskl & Hsk & Htot) He. destruct Hh as (H1 & H2 & H3 & H4 & H5 & H6 & H7).
   unfold decode, wenc, wenc_header.
   set (c := wenc_chain (wm_sk_next m) (wm_payloads m)) in *.
   assert (Hfirst : wfirst (wm_payloads m) < 256).
